@@ -242,6 +242,18 @@ PIPE_PROGRAMS = {
     "divrem": "%x = arith.divsi %a, %b : i32\n %y = arith.remsi %a, %b : i32\n %z = arith.addi %x, %y : i32\n func.return %z : i32",
     "reuse": "%x = arith.addi %a, %a : i32\n %y = arith.muli %x, %x : i32\n %z = arith.subi %y, %a : i32\n %w = arith.addi %z, %b : i32\n func.return %w : i32",
 }
+# several results: the return values travel through one parallel move (swap = cycle, duplicates = fan-out)
+MULTI = {"ret_swap": ("func.return %b, %a : i32, i32", 2), "ret_swap_dup": ("func.return %b, %a, %a : i32, i32, i32", 3), "ret_dup_swap": ("func.return %a, %b, %a, %b : i32, i32, i32, i32", 4),
+         "ret_rot_dup": ("%s = arith.addi %a, %b : i32\n func.return %b, %s, %a, %b : i32, i32, i32, i32", 4), "ret_fan": ("func.return %b, %b, %b : i32, i32, i32", 3)}
+MULTI = {k: v for k, v in MULTI.items() if v[1] <= 2}  # the RISC-V calling convention of the backend returns at most two values
+CALLS = {"call_swap_dup": ("func.func private @g(i32, i32, i32) -> i32", "%r = func.call @g(%b, %a, %a) : (i32, i32, i32) -> i32\n func.return %r : i32"),
+         "call_dup_swap4": ("func.func private @g(i32, i32, i32, i32) -> i32", "%r = func.call @g(%a, %a, %b, %a) : (i32, i32, i32, i32) -> i32\n %s = arith.addi %r, %b : i32\n func.return %s : i32"),
+         "call_rot_fan": ("func.func private @g(i32, i32, i32, i32) -> i32", "%s = arith.addi %a, %b : i32\n %r = func.call @g(%b, %s, %a, %b) : (i32, i32, i32, i32) -> i32\n func.return %r : i32"),
+         "call_twice": ("func.func private @g(i32, i32) -> i32", "%r = func.call @g(%b, %a) : (i32, i32) -> i32\n %t = func.call @g(%r, %r) : (i32, i32) -> i32\n func.return %t : i32")}
+for _k, (_pre, _body) in CALLS.items():
+    PIPE_PROGRAMS[_k] = _body
+for _k, (_body, _n) in MULTI.items():
+    PIPE_PROGRAMS[_k] = _body
 for _p, _nm in enumerate(["eq", "ne", "slt", "sle", "sgt", "sge", "ult", "ule", "ugt", "uge"]):
     PIPE_PROGRAMS[f"cmpi_{_nm}"] = f"%c = arith.cmpi {_nm}, %a, %b : i32\n func.return %c : i1"
 PIPELINES = {"ssa": "convert-func-to-riscv-func,convert-arith-to-riscv,reconcile-unrealized-casts",
@@ -254,7 +266,10 @@ def pipe_harness(ob, concrete=None):
         from xdsl.transforms import get_all_passes
 
         rt = "i1" if ob["prog"].startswith("cmpi_") else "i32"
-        text = "builtin.module { func.func @f(%a: i32, %b: i32) -> " + rt + " {\n " + PIPE_PROGRAMS[ob["prog"]] + "\n} }"
+        if ob["prog"] in MULTI:
+            rt = "(" + ", ".join(["i32"] * MULTI[ob["prog"]][1]) + ")"
+        prelude = CALLS[ob["prog"]][0] + "\n" if ob["prog"] in CALLS else ""
+        text = "builtin.module { " + prelude + "func.func @f(%a: i32, %b: i32) -> " + rt + " {\n " + PIPE_PROGRAMS[ob["prog"]] + "\n} }"
         m = Parser(ctx(), text).parse_module()
         # symbolic constants (markers)
         for op in list(m.walk()):
@@ -271,7 +286,7 @@ def pipe_harness(ob, concrete=None):
                     payload = SymInt.var(name, *I32)
                 op.properties["value"] = builtin.IntegerAttr(payload, op.result.type)
         m.verify()
-        f = next(o for o in m.walk() if isinstance(o, func.FuncOp))
+        f = next(o for o in m.walk() if isinstance(o, func.FuncOp) and o.sym_name.data == "f")
         if concrete is None:
             args = tv.arg_terms(f)
         else:
@@ -285,25 +300,57 @@ def pipe_harness(ob, concrete=None):
             if ex is not None:
                 ex.note("pass_failed", type(e).__name__)
             return True
-        rf = next(o for o in m.walk() if isinstance(o, riscv_func.FuncOp))
+        except ValueError as e:
+            if "Cannot lower" in str(e):  # the backend's own refusal
+                return True
+            raise
+        rf = next(o for o in m.walk() if isinstance(o, riscv_func.FuncOp) and o.sym_name.data == "f")
         mach = rvsem.Machine(32, "m")
         mach.x["a0"], mach.x["a1"] = args[0], args[1]
         mach.init_x["a0"], mach.init_x["a1"] = args[0], args[1]
         ret = None
         blk = rf.body.blocks.first
+        trace2, ncalls, abi_ok = [], 0, []
         for op in blk.ops:
             if op.name == "riscv_func.return":
                 ret = op
                 break
+            if op.name == "riscv_func.call":
+                # an external call: arguments are read from a0.. (allocated mode) and observed; results are the same uninterpreted
+                # functions the reference uses; caller-saved registers are clobbered
+                cargs = []
+                for k_, v in enumerate(op.args):
+                    if getattr(v.type, "is_allocated", False):
+                        abi_ok.append(z3.BoolVal(v.type.register_name.data == f"a{k_}"))
+                    cargs.append(mach.read(v))
+                name = op.callee.root_reference.data
+                trace2.append(refprog.Effect("call", name, cargs))
+                allocated = any(getattr(v.type, "is_allocated", False) for v in list(op.args) + list(op.ress))
+                if allocated:
+                    for r in [f"a{i}" for i in range(8)] + [f"t{i}" for i in range(7)] + ["ra"]:
+                        mach.wx(r, z3.BitVec(f"m_clobber{ncalls}_{r}", 32))
+                for i_, r in enumerate(op.ress):
+                    fsym = z3.Function(f"ext_{name}_{i_}", z3.IntSort(), *[a_.sort() for a_ in cargs], z3.BitVecSort(32))
+                    mach.write(r, fsym(z3.IntVal(ncalls), *cargs))
+                    if getattr(r.type, "is_allocated", False):
+                        abi_ok.append(z3.BoolVal(r.type.register_name.data == f"a{i_}"))
+                ncalls += 1
+                continue
             rvsem.exec_op(mach, op)
         if ret is None:
             raise tv.InvalidIR("no return in lowered function")
-        out = mach.read(ret.operands[0]) if ret.operands else mach.rx("a0")
-        res, dfd = before[0][0], before[1]
-        if res.size() < 32:
-            # an i1 lives in a register as 0/1
-            res = z3.ZeroExt(32 - res.size(), res)
-        props = [z3.Implies(dfd, out == res)]
+        dfd = before[1]
+        props = [z3.Implies(dfd, refprog.same_trace(before[2], trace2))] + abi_ok
+        for k_ in range(len(before[0])):
+            out = mach.read(ret.operands[k_]) if len(ret.operands) > k_ else mach.rx(f"a{k_}")
+            res = before[0][k_]
+            if res.size() < 32:
+                # an i1 lives in a register as 0/1
+                res = z3.ZeroExt(32 - res.size(), res)
+            props.append(z3.Implies(dfd, out == res))
+            if len(ret.operands) > k_ and getattr(ret.operands[k_].type, "is_allocated", False):
+                # the k-th result must be in the k-th argument register
+                props.append(z3.BoolVal(ret.operands[k_].type.register_name.data == f"a{k_}"))
         # callee-saved registers untouched by a leaf function without prologue
         for r in rvsem.CALLEE_SAVED:
             if r in mach.touched_x:
@@ -378,8 +425,82 @@ def prologue_harness(ob, concrete=None):
     return h
 
 
+# ---- (d) parallel moves between allocated registers, as the func lowering emits them for call arguments -------------
+PMOVS = {
+    "swap": [("a1", "a0"), ("a0", "a1")],
+    "swap_fan": [("a1", "a0"), ("a0", "a1"), ("a0", "a2")],
+    "fan_cycle_apart": [("a5", "a0"), ("a5", "a1"), ("a3", "a2"), ("a2", "a3")],
+    "rot3": [("a1", "a0"), ("a2", "a1"), ("a0", "a2")],
+    "rot3_fan": [("a1", "a0"), ("a2", "a1"), ("a0", "a2"), ("a0", "a3")],
+    "chain": [("a0", "a1"), ("a1", "a2"), ("a2", "a3")],
+    "tree_on_cycle": [("a1", "a0"), ("a0", "a1"), ("a1", "a2"), ("a2", "a3")],
+    "two_swaps": [("a1", "a0"), ("a0", "a1"), ("a3", "a2"), ("a2", "a3")],
+    "fan3": [("a4", "a0"), ("a4", "a1"), ("a4", "a2")],
+    "self_and_swap": [("a0", "a0"), ("a2", "a1"), ("a1", "a2")],
+}
+
+
+def pmov_harness(ob, concrete=None):
+    def h(ex):
+        from xdsl.transforms import get_all_passes
+
+        moves = PMOVS[ob["moves"]]
+        srcs = sorted({s_ for s_, _ in moves})
+        argsig = ", ".join(f"%{r}: !riscv.reg<{r}>" for r in srcs)
+        ins = ", ".join(f"%{s_}" for s_, _ in moves)
+        outs = ", ".join(f"%o{i}" for i in range(len(moves)))
+        ity = ", ".join(f"!riscv.reg<{s_}>" for s_, _ in moves)
+        oty = ", ".join(f"!riscv.reg<{d}>" for _, d in moves)
+        widths = ", ".join(["32"] * len(moves))
+        text = (f"builtin.module {{ riscv_func.func @f({argsig}) {{\n  {outs} = \"riscv.parallel_mov\"({ins}) <{{input_widths = array<i32: {widths}>}}> : ({ity}) -> ({oty})\n"
+                f"  \"test.op\"({outs}) : ({oty}) -> ()\n  riscv_func.return\n}} }}")
+        m = Parser(ctx(), text).parse_module()
+        m.verify()
+        try:
+            get_all_passes()["riscv-lower-parallel-mov"]()().apply(ctx(), m)
+            m.verify()
+        except (DiagnosticException, PassFailedException):
+            return True
+        rf = next(o for o in m.walk() if isinstance(o, riscv_func.FuncOp))
+        mach = rvsem.Machine(32, "m")
+        regs = sorted({r for mv in moves for r in mv} | {f"a{i}" for i in range(8)} | {f"t{i}" for i in range(7)})
+        init = {}
+        for r in regs:
+            v = z3.BitVec(f"x_{r}", 32) if concrete is None else z3.BitVecVal(concrete.get(f"x_{r}", 0), 32)
+            mach.x[r] = mach.init_x[r] = init[r] = v
+            if ex is not None and concrete is None:
+                ex.named[f"x_{r}"] = SymInt.from_bv(v)
+        for op in rf.body.blocks.first.ops:
+            if op.name in ("riscv_func.return", "test.op"):
+                continue
+            rvsem.exec_op(mach, op)
+        dsts = {d for _, d in moves}
+        props = [mach.rx(d) == init[s_] for s_, d in moves]
+        # no register other than the destinations changes (no free-register hint is given)
+        props += [mach.rx(r) == init[r] for r in regs if r not in dsts]
+        return z3.And(*props)
+
+    return h
+
+
 def obligations(tier):
     obs = []
+    for name, moves in PMOVS.items():
+        dsts = {d for _, d in moves}
+        roots = {s_ for s_, d in moves if s_ not in dsts}
+        succ = {}
+        for s_, d in moves:
+            if s_ != d:
+                succ.setdefault(s_, []).append(d)
+
+        def on_cycle(r, seen=()):
+            return any(d == r0 or (d not in seen and on_cycle_from(d, r0, seen + (d,))) for r0 in [r] for d in succ.get(r, []))
+
+        def on_cycle_from(x, r0, seen):
+            return any(d == r0 or (d not in seen and on_cycle_from(d, r0, seen + (d,))) for d in succ.get(x, []))
+
+        has_cycle = any(on_cycle(r) for r in dsts)
+        obs.append({"id": f"C22/parallel_mov/{name}", "kind": "pmov", "moves": name, "weight": 1, "kf_root_cycle": int(bool(roots) and has_cycle)})
     for name in snippet_specs():
         obs.append({"id": f"C22/canon/{name}", "kind": "canon", "snippet": name, "weight": 2})
     for p in PIPE_PROGRAMS:
@@ -400,7 +521,7 @@ def bounds(tier):
 
 
 def harness(ob, concrete=None):
-    return {"canon": canon_harness, "pipe": pipe_harness, "prologue": prologue_harness}[ob["kind"]](ob, concrete)
+    return {"canon": canon_harness, "pipe": pipe_harness, "prologue": prologue_harness, "pmov": pmov_harness}[ob["kind"]](ob, concrete)
 
 
 def run(ob, tier, stats, exclude):
